@@ -666,8 +666,21 @@ fn render_block(
     } else {
         idx_path.iter().fold(spelling, |a, i| crate::rng::mix_n(a, *i as u64 + 1)) | 1
     };
+    // other text may stand in the comment in front of a tag - also text with a `<` in it
+    let lead = |k: u64| -> &'static str {
+        if spell == 0 {
+            return "";
+        }
+        match crate::rng::mix_n(spell, k) % 9 {
+            0 => "loop while i<n ",
+            1 => "see a<b, x <- y: ",
+            2 => "<p> note </p> ",
+            _ => "",
+        }
+    };
     if b.one_comment && b.lines.is_empty() && b.children.is_empty() && b.tail.is_empty() {
         let tag = render_start_tag_laid_out(b, if tab_tags { '\t' } else { ' ' }, spell, false);
+        let tag = format!("{}{tag}", lead(21));
         let gap = if spell % 3 == 0 { "" } else { " " };
         lines.push(comment(leader, block_comments, lines.len(), &format!("{tag}{gap}{}", render_end_tag_spelled(spell))));
         out.push(BlockLayout {
@@ -688,7 +701,7 @@ fn render_block(
         leader,
         block_comments,
         lines.len(),
-        &render_start_tag_laid_out(b, if tab_tags { '\t' } else { ' ' }, spell, multiline),
+        &format!("{}{}", lead(21), render_start_tag_laid_out(b, if tab_tags { '\t' } else { ' ' }, spell, multiline)),
     );
     let tag_lines = tag_comment.split('\n').count();
     for l in tag_comment.split('\n') {
@@ -715,7 +728,7 @@ fn render_block(
         lines.push(l.clone());
     }
     let end_line = lines.len() + 1;
-    lines.push(comment(leader, block_comments, lines.len(), render_end_tag_spelled(spell)));
+    lines.push(comment(leader, block_comments, lines.len(), &format!("{}{}", lead(22), render_end_tag_spelled(spell))));
     // content = "\n" + every line strictly between the tags, each followed by "\n"
     let mut content = String::from("\n");
     for l in &lines[start_line + tag_lines - 1..end_line - 1] {
